@@ -52,7 +52,7 @@ type entry struct {
 }
 
 // Run executes one line.
-const deadline = 20 * time.Second
+const deadline = 10 * time.Second
 
 var hung bool
 
@@ -242,7 +242,6 @@ func execute(line string, dstLink bool) (o outcome) {
 		o.bad = true
 		return
 	}
-	fdsBefore := countFDs()
 	restore := writeLimit(limit)
 	fm := os.FileMode(mask)
 	results := make([]string, 0, times)
@@ -285,7 +284,7 @@ func execute(line string, dstLink bool) (o outcome) {
 		}
 	}
 	restore()
-	leaked := countFDs() != fdsBefore
+	leaked := src != "" && via != "missing" && holdsOpen(src)
 	res := strings.Join(results, ",")
 	o.nodes = collect(t, base)
 	if leaked {
@@ -345,15 +344,21 @@ func cleanup(t string) {
 	_ = os.RemoveAll(t)
 }
 
-// countFDs is the number of open descriptors of the harness (the harness is single-threaded between the two counts).
-func countFDs() int {
+// holdsOpen reports whether one of the harness's descriptors still refers to the archive file (an *Archive* form that
+// returned without closing it).  Only descriptors of that very file count: the runtime opens others on its own.
+func holdsOpen(src string) bool {
 	d, err := os.Open("/proc/self/fd")
 	if err != nil {
-		return -1
+		return false
 	}
 	defer d.Close()
 	names, _ := d.Readdirnames(-1)
-	return len(names)
+	for _, n := range names {
+		if tg, lerr := os.Readlink("/proc/self/fd/" + n); lerr == nil && tg == src {
+			return true
+		}
+	}
+	return false
 }
 
 func zipReader(raw []byte) *zip.Reader {
